@@ -79,6 +79,26 @@ def run_one(jp, spec, base):
                 stdin_file.seek(len(hdr))
                 transports.append("stdin:file@%d" % len(hdr))
                 r = subprocess.run(argv, stdin=stdin_file, capture_output=True, timeout=60)
+            elif spec["input_channel"] != "stdin" and "dev-stdin" not in transports and not stdin and (h >> 15) % 5 != 0:
+                # the document comes from a named file: whatever standard input is — undecodable bytes, text that is
+                # not JSON, a directory, closed — is none of jp's business and changes nothing
+                hs = (h >> 15) % 5
+                if hs == 1:
+                    transports.append("stdin:ignored-invalid-utf8")
+                    r = subprocess.run(argv, input=b"\xff\xfe{\"a\": \xc3", capture_output=True, timeout=60)
+                elif hs == 2:
+                    transports.append("stdin:ignored-not-json")
+                    r = subprocess.run(argv, input=b"{{{ this is not JSON\n", capture_output=True, timeout=60)
+                elif hs == 3:
+                    transports.append("stdin:ignored-directory")
+                    dfd = os.open(d, os.O_RDONLY)
+                    try:
+                        r = subprocess.run(argv, stdin=dfd, capture_output=True, timeout=60)
+                    finally:
+                        os.close(dfd)
+                else:
+                    transports.append("stdin:ignored-closed")
+                    r = subprocess.run(argv, stdin=subprocess.DEVNULL, capture_output=True, timeout=60, preexec_fn=lambda: os.close(0))
             else:
                 transports.append("stdin:pipe")
                 r = subprocess.run(argv, input=stdin, capture_output=True, timeout=60)
